@@ -34,8 +34,11 @@ ASSUMPTIONS = [
 AGGS = ['SUM', 'AVERAGE', 'MIN', 'MAX', 'COUNT', 'COUNTA']
 
 
+OFFSET = [0]      # column at which the grid is anchored (0 = column A)
+
+
 def addr(r, c):
-    return '%s%d' % (num_to_col(c + 1), r + 1)
+    return '%s%d' % (num_to_col(c + 1 + OFFSET[0]), r + 1)
 
 
 def rng(r1, c1, r2, c2):
@@ -83,6 +86,18 @@ def _grid(d, h, w):
 
 
 def _build(d, maxdim):
+    # anchor the rectangle so that it crosses the Z|AA or ZZ|AAA boundary
+    OFFSET[0] = d.choice([0, 0, 0, 23, 24, 25, 700, 701])
+    try:
+        case = _build0(d, maxdim)
+    finally:
+        c0 = OFFSET[0]
+        OFFSET[0] = 0
+    case['c0'] = c0
+    return case
+
+
+def _build0(d, maxdim):
     h, w = d.int(1, maxdim), d.int(1, maxdim)
     grid = _grid(d, h, w)
     if d.pick(5) == 0:
@@ -164,7 +179,8 @@ def cells_of(grid, ref):
     c2, r2 = split_a1(b)
     out = []
     for r in range(r1 - 1, r2):
-        for c in range(col_to_num(c1) - 1, col_to_num(c2)):
+        for c in range(col_to_num(c1) - 1 - OFFSET[0],
+                       col_to_num(c2) - OFFSET[0]):
             out.append(grid[r][c])
     return out
 
@@ -221,6 +237,14 @@ def _permute_grid(grid, k):
 
 
 def judge(case):
+    OFFSET[0] = case.get('c0', 0)
+    try:
+        return _judge(case)
+    finally:
+        OFFSET[0] = 0
+
+
+def _judge(case):
     res = Result()
     if case['kind'] == 'sumproduct':
         return _judge_sp(case, res)
@@ -243,15 +267,15 @@ def judge(case):
     if grid2:
         cells.update(_cells(grid2, sheet='Other'))
     F = 'Sheet1!'
-    cells[F + 'AA1'] = _render(fn, args)
-    cells[F + 'AA2'] = _render(fn, list(reversed(args)))
-    cells[F + 'AA3'] = _render('MIN', args)
-    cells[F + 'AA4'] = _render('AVERAGE', args)
-    cells[F + 'AA5'] = _render('MAX', args)
-    cells[F + 'AA6'] = '=SUM(%s)' % rng(0, 0, h - 1, w - 1)
-    cells[F + 'AA7'] = _render('SUM', [a for a in args if a[0] == 'r'])
+    cells[F + 'XFA1'] = _render(fn, args)
+    cells[F + 'XFA2'] = _render(fn, list(reversed(args)))
+    cells[F + 'XFA3'] = _render('MIN', args)
+    cells[F + 'XFA4'] = _render('AVERAGE', args)
+    cells[F + 'XFA5'] = _render('MAX', args)
+    cells[F + 'XFA6'] = '=SUM(%s)' % rng(0, 0, h - 1, w - 1)
+    cells[F + 'XFA7'] = _render('SUM', [a for a in args if a[0] == 'r'])
     if not any(a[0] == 'r' for a in args):
-        cells[F + 'AA7'] = cells[F + 'AA6']
+        cells[F + 'XFA7'] = cells[F + 'XFA6']
     try:
         model = lib.compile_dict(cells)
     except Exception as err:  # noqa: BLE001
@@ -261,23 +285,23 @@ def judge(case):
         return res
     xl = lib.lib()
     ev = xl.Evaluator(model)
-    obs = lib.evaluate(model, F + 'AA1', ev)
+    obs = lib.evaluate(model, F + 'XFA1', ev)
     want = ('N', float(exp))
     cls = 'gap' if has_gap else 'dense'
     if not close(obs, want, rel=1e-12):
         if obs[0] == 'X':
             res.fail('exception:%s:%s:%s' % (fn, obs[1], cls), want, obs,
-                     cells[F + 'AA1'])
+                     cells[F + 'XFA1'])
         else:
             res.fail('fold:%s:%s%s' % (fn, cls, ':two-sheets' if grid2
-                                       else ''), want, obs, cells[F + 'AA1'])
+                                       else ''), want, obs, cells[F + 'XFA1'])
         return res
     # metamorphic relations on the library's own answers
-    rev = lib.evaluate(model, F + 'AA2', ev)
+    rev = lib.evaluate(model, F + 'XFA2', ev)
     if not close(obs, rev, rel=1e-12):
-        res.fail('permute-args:%s' % fn, obs, rev, cells[F + 'AA2'])
+        res.fail('permute-args:%s' % fn, obs, rev, cells[F + 'XFA2'])
     if nnum + sum(1 for a in args if a[0] == 'n') > 0:
-        mn, av, mx = (lib.evaluate(model, F + 'AA%d' % i, ev)
+        mn, av, mx = (lib.evaluate(model, F + 'XFA%d' % i, ev)
                       for i in (3, 4, 5))
         if all(t[0] == 'N' and isinstance(t[1], float)
                for t in (mn, av, mx)):
@@ -287,19 +311,19 @@ def judge(case):
         else:
             res.fail('min-avg-max-nonnumeric:%s' % cls, 'numbers',
                      [mn, av, mx])
-    whole = lib.evaluate(model, F + 'AA6', ev)
-    parts = lib.evaluate(model, F + 'AA7', ev)
+    whole = lib.evaluate(model, F + 'XFA6', ev)
+    parts = lib.evaluate(model, F + 'XFA7', ev)
     if not close(whole, parts, rel=1e-12):
-        res.fail('sum-additive', whole, parts, cells[F + 'AA7'])
+        res.fail('sum-additive', whole, parts, cells[F + 'XFA7'])
     # permutation of contents within the rectangle (single model, new cells)
     if case.get('shuffle'):
         g2 = _permute_grid(grid, case['shuffle'])
         c2 = _cells(g2)
-        c2[F + 'AA1'] = '=%s(%s)' % (fn, rng(0, 0, h - 1, w - 1))
+        c2[F + 'XFA1'] = '=%s(%s)' % (fn, rng(0, 0, h - 1, w - 1))
         c1 = _cells(grid)
-        c1[F + 'AA1'] = c2[F + 'AA1']
-        o1, _ = lib.eval_formula(c1[F + 'AA1'], c1, addr=F + 'AA1')
-        o2, _ = lib.eval_formula(c2[F + 'AA1'], c2, addr=F + 'AA1')
+        c1[F + 'XFA1'] = c2[F + 'XFA1']
+        o1, _ = lib.eval_formula(c1[F + 'XFA1'], c1, addr=F + 'XFA1')
+        o2, _ = lib.eval_formula(c2[F + 'XFA1'], c2, addr=F + 'XFA1')
         if not close(o1, o2, rel=1e-12):
             res.fail('permute-contents:%s' % fn, o1, o2)
     return res
